@@ -7,6 +7,65 @@ VERIF = Path(__file__).resolve().parent.parent
 
 # property id -> (design section, what the theorems give, what is assumed)
 CLAIMS = {
+    "C08": ("8/C08",
+            "Lean 4 theorems about the Weaver state machine written in the code's assignment order: domain_history (induction "
+            "over ALL histories of the ten domain operations: working = reference = the original with exactly those "
+            "transformations applied, as a monadic fold of the pure series transformations; converse too), reshape_frame "
+            "(recreate, match, interpolate, smooth, trend, noise never alter reference or original), original_frame, "
+            "caller_untouched. The pipeline clause is C02's theorem applied to the reference delivered by domain_history. "
+            "Tie: session correspondence - after EVERY step of random histories (and of every sequence of <= 3 operations over "
+            "a 20-letter alphabet in the thorough tier) working, reference and original series are compared with the model.",
+            "values of external routines are data; bounds that must coincide with computed samples are sent symbolically "
+            "(@i); commuting of shift/scale with the pipeline follows from C07 + C03 kernel linearity and is checked by the "
+            "oracle on the real code rather than restated as one theorem."),
+    "C09": ("8/C09",
+            "Lean 4 theorems: wf_step / wf_program (the invariant 'equal lengths, strictly increasing x, >= 2 samples' for "
+            "working, reference and original series is preserved by all 19 operation kinds under their documented "
+            "preconditions, hence along every valid program), caller_untouched / caller_irrelevant (no step writes or reads the "
+            "caller's arrays), original_frame, restore_fresh (after restore_original every continuation behaves exactly as on "
+            "a newly constructed object, incl. the queries), normX_defined (no zero denominator). Tie: session correspondence "
+            "over the whole API with container types, ndim, caller snapshots; the continuation after restore is also run on a "
+            "fresh object.",
+            "'finite values' = definedness of the quotients in this repository's own code; values from SciPy / the scripted "
+            "noise draw are data; NumPy container facts (ndarray, ndim) are observed on the real objects."),
+    "C11": ("8/C11",
+            "Lean 4 theorems: truncateBounds_spec (kept run = [last sample <= left or first, first sample >= right or last], "
+            "via the C10 specifications), truncate_minimal (smallest contiguous covering run), truncate_covers, same cut for x "
+            "and y, the reference cut with the same arguments, inverted range = ValueError; pySlice / sliceStep / truncI / "
+            "sliceByIndex = Python slice semantics (negative and clamped stops); sliceByValue_spec (exactly the samples with "
+            "start <= x <= stop, omitted bounds = ends, absent value = ValueError). Tie: correspondence on process.truncate "
+            "and Weaver sessions with boundary-heavy bounds and all slices.",
+            "step >= 1; ratio bounds are converted with each series' own span (as the code does)."),
+    "C13": ("8/C13",
+            "Lean 4 theorems: interpConstant_spec (value of the last sample at or before the point; first value / left to the "
+            "left of the data), constant_knots, interpLinearAt_knot / _between / _clamp, linear_affine, linspace grid (n "
+            "points, equal spacing, end points), interpN_grid, interpX_grid_mismatch, interpolate_unknown_method. Tie: "
+            "correspondence for all four methods (for cubic / spline the harness evaluates SciPy with the forwarded arguments "
+            "and hands the values to the model).",
+            "partial: the knot / affine clauses of 'cubic' and 'spline' are SciPy's (assumed; checked on the real code only); "
+            "np.interp is modelled as clamped piecewise-linear interpolation."),
+    "C15": ("8/C15",
+            "Lean 4 theorems: noise_additive, noise_step_frame (x, length, reference, original untouched), noise_scale_sq "
+            "(std_i^2 * SNR_i = mean(y^2), per sample), over the reals noise_scale_real_db / _lin (std = sqrt(mean(y^2) / "
+            "10^(snr/10))), noise_deterministic. Tie: numpy.random.normal replaced by a recorder returning a scripted draw: "
+            "loc, size, scale^2 and the exact sum are compared with the model.",
+            "partial: that numpy.random.normal is zero-mean Gaussian with the requested scale, seed reproducibility and the "
+            "empirical SNR are NumPy's - statistical oracle only, not proof."),
+    "C16": ("8/C16",
+            "Lean 4 theorems: defaultS_eq (len*var = sum of squared deviations from the mean), smooth_frame (x and every other "
+            "series kept), and - under the recorded FITPACK contract as an explicit hypothesis - smooth_dev_le, "
+            "smooth_zero_identity, smooth_default_uses_variance. Tie: behavioural - SciPy called by the harness with the triple "
+            "(x, y, s_eff) the model says is forwarded must equal Weaver.smooth / to_function / spline_smooth.",
+            "partial: everything numerical about the spline is FITPACK's (assumed contract; observed on the real code; runs "
+            "with non-convergence warnings discarded)."),
+    "C20": ("8/C20",
+            "Lean 4 theorems: reject_untouched (for EVERY state and operation: ValueError => state unchanged; needs the "
+            "imperative-order model - it failed for the original truncate_by_value), reject_untouched_any, appendOne_partial, "
+            "and one reject_kinds theorem per class (length mismatch, (N,2) shape, n < 2, unknown reference / target rule, "
+            "unknown strategy, unknown method, fixed points too many / not samples, inverted range, index bounds, absent slice "
+            "value, grid end points). Tie: malformed stream issued after random valid histories.",
+            "unknown target rule is only looked at when at least one window exists (as in the code); dataset names via C18's "
+            "resolution model; other exception kinds on out-of-contract input are outside the statement."),
     "C19": ("8/C19",
             "Lean 4 theorems about a protocol model of load_csv_dataset_from_remote / _fetch_remote with any number of loader "
             "processes, arbitrary interleavings, arbitrary network answers and a kill at any step boundary: cache_inv_reachable "
@@ -135,7 +194,7 @@ NOT_YET = {
 ALL = [f"C{n:02d}" for n in range(1, 21)]
 
 # properties whose theorems, tie and check are complete enough to be claimed
-BUILT = ["C01", "C03", "C04", "C05", "C06", "C07", "C10", "C12", "C14", "C17", "C18", "C19"]
+BUILT = ["C01", "C03", "C04", "C05", "C06", "C07", "C08", "C09", "C11", "C13", "C15", "C16", "C20", "C10", "C12", "C14", "C17", "C18", "C19"]
 
 
 
